@@ -608,7 +608,7 @@ impl Prop for C14 {
         "C14"
     }
     fn rule(&self) -> &'static str {
-        "small generated plans (<= 10 ops, batches, thread-locals); ENUMERATED per plan: every system (each position of each group and stage, thread-local, controller, inside batches) as the panicking one x fault point {before its fetch, inside run, after its release} x {dispatch (parallel), dispatch_seq + thread-local} x (for systems inside batches that dispatch k >= 2 times, incl. MultiDispatcher batches: also the fault in the last and the second of its runs) x sibling phase forced by the conductor {panicking system first = siblings before their fetch, maximal overlap = siblings inside run, panicking system last = siblings released}; pairs variant: two systems of one stage armed at once; oracle: catch_unwind(dispatch) is Err with the HarnessFault payload of an armed system, no counter above 1 x enclosing dispatch counts, no transitive dependent ran, afterwards every cell probes free and the next unarmed dispatch runs everything exactly once; evaluations = fault points; non-trivial = plan with >= 2 groups in a stage or a dependency edge; distinct = plan hash"
+        "small generated plans (<= 10 ops, batches, thread-locals); ENUMERATED per plan: every system (each position of each group and stage, thread-local, controller, inside batches) as the panicking one x fault point {before its fetch, inside run, after its release} x {dispatch (parallel), dispatch_seq + thread-local, RunNow::run_now} x (for systems inside batches that dispatch k >= 2 times, incl. MultiDispatcher batches: also the fault in the last and the second of its runs) x sibling phase forced by the conductor {panicking system first = siblings before their fetch, maximal overlap = siblings inside run, panicking system last = siblings released}; pairs variant: two systems of one stage armed at once; oracle: catch_unwind(dispatch) is Err with the HarnessFault payload of an armed system, no counter above 1 x enclosing dispatch counts, no transitive dependent ran, afterwards every cell probes free and the next unarmed dispatch runs everything exactly once; evaluations = fault points; non-trivial = plan with >= 2 groups in a stage or a dependency edge; distinct = plan hash"
     }
     fn gen(&self, src: &mut Src) -> C14Case {
         let threads = if self.cfg.max_ops > 12 {
@@ -690,6 +690,9 @@ impl Prop for C14 {
                         self.one_fault(&mut b, &[s], point, Entry::Dispatch, strat, label)?;
                         points += 1;
                     }
+                    // the dispatcher driven as a RunNow object
+                    self.one_fault(&mut b, &[s], point, Entry::RunNowTrait, None, "free-run through RunNow::run_now")?;
+                    points += 1;
                     // inside a batch that dispatches several times: also in a later inner dispatch
                     let per_dispatch = expected_runs(&flat, 1, 1)[s];
                     if per_dispatch >= 2 {
